@@ -491,7 +491,13 @@ func (o Otto) ContextSkip(limit int, skipNative bool) Context {
 		for {
 			for _, name := range getStashProperties(stash) {
 				if _, ok := ctx.Symbols[name]; !ok {
-					ctx.Symbols[name] = stash.getBinding(name, true)
+					// Reading a binding of a with object or of the global object can run a
+					// getter; one that throws leaves the symbol undefined.
+					var value Value
+					if err := catchPanic(func() { value = stash.getBinding(name, true) }); err != nil {
+						value = Value{}
+					}
+					ctx.Symbols[name] = value
 				}
 			}
 			stash = stash.outer()
